@@ -1,6 +1,8 @@
 import Retro.Drv.Common
 import Retro.Drv.F32Native
 import Retro.Model.FloatFallback
+import Retro.Model.Tex
+import Retro.Spec.Tex
 import Retro.Spec.FloatSpec
 
 /-!
@@ -297,15 +299,118 @@ def handle (case impl : List String) : Verdict :=
       match toRat? xb with
       | some q =>
         if q ≥ -1/2 && q < 4194304 then
-          let s := q + 1/2
-          let e := s.floor.toNat
-          -- `x + 0.5` is itself rounded: when it lies within 2^-20 below an integer the decision
-          -- margin is too small to judge a float computation by exact arithmetic (C04's band is 1e-3 px)
-          let margin := (s.floor : Rat) + 1 - s
-          if margin < ratPow2 (-20) then { v with amb := true, tags := "rh-margin" :: v.tags }
-          else v.withSpec (i0 != toString e) (be ++ "-round-up-to-half") s!"first pixel {i0}, expected {e}"
+          -- exact since fix b772987 (Props.C20.round_up_to_half_exact): no ambiguity band needed
+          let e := (q + 1/2).floor.toNat
+          v.withSpec (i0 != toString e) (be ++ "-round-up-to-half") s!"first pixel {i0}, expected {e}"
         else v
       | none => v
+  | ["tx", be, smp, kdw, kdh, u, v] =>
+    -- texture addressing in configuration `be`: model = Retro.Model.Tex with that back end's floor;
+    -- spec = floor(coordinate) mod size (repeat, |x| < 2^31) / clamped floor (clamp), in exact arithmetic
+    match kdw.toNat?, kdh.toNat?, bits? u, bits? v with
+    | some dw, some dh, some ub, some vb =>
+      let t := Tex.Texture.ofDims dw dh
+      let fl := floorModel be
+      let m : Option (Outcome (Nat × Nat)) :=
+        if smp == "rep" then
+          some (match Tex.RepeatPot.new t with
+            | .panic msg => .panic msg
+            | .ok sm => Tex.repeatSampleAbsF fl sm t ub vb)
+        else if smp == "cl" then some (Tex.clampSampleAbsF fl t ub vb)
+        else none
+      match m with
+      | none => bad "tx sampler"
+      | some m =>
+        let tags := ["tx", be, smp, "u-" ++ inputTag ub, "v-" ++ inputTag vb]
+        let want := match m with | .ok (a, b) => s!"{a},{b}" | .panic _ => "panic"
+        let got := if i0.startsWith "panic:" then "panic" else i0
+        let vd := (Verdict.ok tags).withDiff (got != want) s!"model {want}"
+        -- impl-only judgement
+        if i0.startsWith "panic:" then vd.withSpec true (be ++ "-texel-panics") s!"sampler panicked: {i0}"
+        else
+          match i0.splitOn "," with
+          | [a, b] =>
+            match a.toNat?, b.toNat? with
+            | some iu, some iv =>
+              let exp (w : Nat) (cb : UInt32) : Option Nat :=
+                match toRat? cb with
+                | none => none
+                | some q =>
+                  if smp == "rep" then (if Spec.Tex.below2p31 q then some (Spec.Tex.repeatIdx w q) else none)
+                  else some (Spec.Tex.clampIdx w q)
+              let okAxis (w : Nat) (cb : UInt32) (i : Nat) : Bool :=
+                i < w && (match exp w cb with | some e => e == i | none => true)
+              vd.withSpec (!(okAxis dw ub iu && okAxis dh vb iv)) (be ++ "-texel-wrong")
+                s!"texel ({iu},{iv}) on {dw}x{dh}, expected ({(exp dw ub).map toString |>.getD "*"},{(exp dh vb).map toString |>.getD "*"})"
+            | _, _ => vd.withSpec true (be ++ "-texel-wrong") s!"unreadable {i0}"
+          | _ => vd.withSpec true (be ++ "-texel-wrong") s!"unreadable {i0}"
+    | _, _, _, _ => bad "tx"
+  | ["wrap", be, a, lo, hi] =>
+    -- Angle::wrap = min + rem_euclid(a − min, max − min) with the back end's rem_euclid
+    match bits? a, bits? lo, bits? hi with
+    | some ab, some lb, some hb =>
+      let model := add lb (remEuclidModel be (sub ab lb) (sub hb lb))
+      let tags := ["wrap", be, "a-" ++ inputTag ab]
+      match bits? i0 with
+      | none => Verdict.mkDiff s!"unreadable output {i0}" tags
+      | some ib =>
+        let vd := (Verdict.ok tags).withDiff (!sameValue ib model) s!"model {hex8 model}"
+        match toRat? ab, toRat? lb, toRat? hb with
+        | some av, some lv, some hv =>
+          if lv < hv then
+            match toRat? ib with
+            | none => vd.withSpec true (be ++ "-angle-wrap-range") s!"wrap({ratApprox av}) = {i0}"
+            | some r =>
+              let p := hv - lv
+              -- float subtraction/addition of magnitudes up to max(|a|,|min|,|max|): a few ulps of that
+              let tol := ratMax (ratMax (ratAbs av) (ratAbs lv)) (ratMax (ratAbs hv) 1) * ratPow2 (-20)
+              let vd := vd.withSpec (r < lv - tol || r > hv + tol) (be ++ "-angle-wrap-range")
+                s!"wrap({ratApprox av}, {ratApprox lv}, {ratApprox hv}) = {ratApprox r} outside the range"
+              vd.withSpec (FloatSpec.distToInt ((r - av) / p) * p > tol) (be ++ "-angle-wrap-congruence")
+                s!"wrap({ratApprox av}, {ratApprox lv}, {ratApprox hv}) = {ratApprox r} is not the same angle"
+          else vd
+        | _, _, _ => vd
+    | _, _, _ => bad "wrap"
+  | ["norm", be, x, y, z] =>
+    match bits? x, bits? y, bits? z with
+    | some xb, some yb, some zb =>
+      let tags := ["norm", be]
+      match toRat? xb, toRat? yb, toRat? zb with
+      | some xv, some yv, some zv =>
+        let l2 := xv * xv + yv * yv + zv * zv
+        if l2 < ratPow2 (-100) || l2 > ratPow2 100 then Verdict.mkAmb (tags ++ ["extreme-length"])
+        else
+          match (impl.map bits?), impl.length with
+          | [some ra, some rb, some rc], 3 =>
+            let vd := Verdict.ok tags
+            -- correspondence for the Newton back ends: len_sqr in f32, exact Newton step, scale
+            let vd :=
+              if be == "fallback" || be == "mm" then
+                let l2b := add (add (mul xb xb) (mul yb yb)) (mul zb zb)
+                match recipSqrtRat l2b, toRat? ra, toRat? rb, toRat? rc with
+                | .ok (some s), some a, some b, some c =>
+                  let close (m i : Rat) : Bool := ratAbs (i - m) ≤ ratAbs m / 100000 + ratPow2 (-60)
+                  vd.withDiff (!(close (xv * s) a && close (yv * s) b && close (zv * s) c))
+                    s!"Newton model ({ratApprox (xv * s)}, {ratApprox (yv * s)}, {ratApprox (zv * s)})"
+                | _, _, _, _ => vd
+              else vd
+            match toRat? ra, toRat? rb, toRat? rc with
+            | some a, some b, some c =>
+              let eps : Rat := if be == "std" || be == "libm" then 1 / 100000 else 35 / 10000
+              let n2 := a * a + b * b + c * c
+              let vd := vd.withSpec (ratAbs (n2 - 1) > 2 * eps + eps * eps) (be ++ "-normalize-not-unit")
+                s!"|normalize(v)|² = {ratApprox n2}"
+              -- same direction: cross product negligible, dot product positive
+              let cx := b * zv - c * yv
+              let cy := c * xv - a * zv
+              let cz := a * yv - b * xv
+              let dot := a * xv + b * yv + c * zv
+              vd.withSpec (dot ≤ 0 || cx * cx + cy * cy + cz * cz > l2 * n2 / 10000000000) (be ++ "-normalize-direction")
+                "normalize(v) is not parallel to v"
+            | _, _, _ => (Verdict.ok tags).withSpec true (be ++ "-normalize-not-unit") s!"non-finite result {impl}"
+          | _, _ => (Verdict.mkDiff s!"unreadable output {impl}" tags).withSpec true (be ++ "-normalize-not-unit") s!"no value: {impl}"
+      | _, _, _ => Verdict.mkAmb (tags ++ ["non-finite-input"])
+    | _, _, _ => bad "norm"
   | "rs" :: op :: args =>
     let bs := args.filterMap bits?
     let b (i : Nat) : UInt32 := bs.getD i 0
